@@ -24,7 +24,7 @@ def gen(rng, tier):
         ({0x100: 0x21, 0x101: 0x00, 0x102: 0x40, 0x103: 0x11, 0x104: 0x06, 0x105: 0x01, 0x106: 0x01, 0x107: 0x08, 0x108: 0x00, 0x109: 0xED, 0x10A: 0xB0, 0x10B: 0x3C, 0x10C: 0x76}, [], 1),
         ({0x100: 0x21, 0x101: 0x20, 0x102: 0x01, 0x103: 0x11, 0x104: 0x0A, 0x105: 0x01, 0x106: 0x01, 0x107: 0x06, 0x108: 0x00, 0x109: 0xED, 0x10A: 0xB8, 0x10B: 0x76}, [], 1),
         ({0x100: 0xF3, 0x101: 0x00, 0x102: 0xFB, 0x103: 0x3C, 0x104: 0x3C, 0x105: 0x76, 0x38: 0xFB, 0x39: 0xED, 0x3A: 0x4D}, [(1, 1, []), (3, 1, [])], 1),
-        ({0x100: 0x3E, 0x101: 0x5A, 0x102: 0xD3, 0x103: 0x10, 0x104: 0xAF, 0x105: 0xDB, 0x106: 0x10, 0x107: 0xED, 0x108: 0x78, 0x109: 0x76}, [], 0),
+        ({0x100: 0x3E, 0x101: 0x5A, 0x102: 0xD3, 0x103: 0x10, 0x104: 0xAF, 0x105: 0xDB, 0x106: 0x10, 0x107: 0x32, 0x108: 0x00, 0x109: 0x50, 0x10A: 0x0E, 0x10B: 0x10, 0x10C: 0xED, 0x10D: 0x40, 0x10E: 0x76}, [], 0),
     ]
     for j, (mem, sched, io) in enumerate(special):
         for r in range(3):
